@@ -224,6 +224,13 @@ class Scenario:
                 self.nfail = getattr(self, "nfail", 0) + 1
                 log.add("func_fail", e=x)
                 loop.do(f.set_exception, aprobe.ConsumerError("function of element %s failed" % x))
+        elif c == "R":
+            # life-cycle calls travel upstream from any node (Stream.start / Stream.stop): on nodes that have no life cycle of
+            # their own, and while everything is running anyway, they change nothing
+            loop.do(self.probes[0].start)
+        elif c == "Z":
+            loop.do(self.probes[0].stop)
+            loop.do(self.probes[0].start)
         elif c == "s":
             loop.step()
             # map_async polls for a free slot with sleep(0): the ready queue never empties while it waits
@@ -275,6 +282,8 @@ class Scenario:
             return bool(self.cfg.get("disconnect")) and not getattr(self, "disconnected", False) and self.next_elem > 0
         if c == "Y":
             return bool(self.cfg.get("reconnect")) and getattr(self, "disconnected", False)
+        if c in ("R", "Z"):
+            return bool(self.cfg.get("lifecycle"))
         if c == "d":
             return bool(log.pending)
         if c == "D":
